@@ -224,3 +224,23 @@ Check buf_equals_fresh : forall dbg h tbl (ops : list rop) (s1 s2 : rstate),
   map clean (rrun dbg h tbl ops s1) = map clean (rrun_fresh dbg h tbl ops s2).
 Check reroot_is_fresh : forall dbg e tbl (h : list (nat * N)) (t t0 : btree),
   bt_key t = bt_key t0 -> walks dbg e tbl h t = walks_fresh dbg e tbl h t0.
+
+(* LineRows (state machine of Model/LineRd.v, property C04) and its clone: next_row on either copy in any
+   order gives each copy what it gives alone; in particular a clone taken after k rows yields the same
+   remaining rows as the original. Immediate in the model (see the remark on aliasing above); the tie to
+   gimli is stream c20.linem (clone after k calls, both copies drained, errors included). *)
+Require Import GV.Spec.LineSpec GV.Model.LineRd GV.Model.LineClone.
+Theorem line_rows_clone_independent : forall dbg be resumed h (st : lr_state) (ops : list (bool * unit)),
+  side false (run2 (line_step dbg be resumed h) ops st st) = run1 (line_step dbg be resumed h) (side false ops) st /\
+  side true (run2 (line_step dbg be resumed h) ops st st) = run1 (line_step dbg be resumed h) (side true ops) st.
+Proof. exact line_rows_clone_independent_thm. Qed.
+
+Theorem line_clone_same_tail : forall dbg be h k,
+  let '(_, _, tail_clone, tail_orig) := line_clone dbg be h k in tail_clone = tail_orig.
+Proof. exact line_clone_same_tail_thm. Qed.
+
+Require Import GV.Proofs.LineRdMono.
+Example line_clone_example :
+  let '(head, early, tail_clone, tail_orig) := line_clone true false sample_header 1 in
+  length head = 1%nat /\ early = None /\ Nat.leb 1 (length (fst tail_clone)) = true /\ tail_clone = tail_orig.
+Proof. vm_compute. repeat split. Qed.
